@@ -16,6 +16,10 @@ fn main() {
         // replay --enumerate <harness> [max-runs]: exhaustive native walk of the harness's decision tree
         let Some((_, body)) = registry().into_iter().find(|(n, _)| *n == args[2]) else { eprintln!("unknown harness {}", args[2]); std::process::exit(2); };
         let max: u64 = args.get(3).and_then(|s| s.parse().ok()).unwrap_or(50_000_000);
+        // optional: only stop at a failure that names this property id (failures of other properties are counted and skipped)
+        let want: Option<String> = args.get(4).cloned();
+        let mut other_failures = 0u64;
+        let mut first_other: Option<(Vec<String>, Vec<u8>)> = None;
         nd::enum_start();
         let mut runs = 0u64;
         let mut valid_runs = 0u64;
@@ -27,6 +31,15 @@ fn main() {
             let valid = !nd::ASSUME_FAILED.with(|f| f.get());
             if valid { valid_runs += 1; }
             if valid && (!failed.is_empty() || r.is_err()) {
+                if let Some(w) = &want {
+                    let mine = failed.iter().any(|f| f.split(':').next().map_or(false, |ids| ids.split(',').any(|i| i == w))) || (r.is_err() && w == "C12");
+                    if !mine {
+                        other_failures += 1;
+                        if first_other.is_none() { first_other = Some((failed.clone(), nd::enum_script())); }
+                        if !nd::enum_advance() || runs >= max { break; }
+                        continue;
+                    }
+                }
                 let script = nd::enum_script();
                 println!("ENUM-FAILED after {runs} runs: {}", failed.join(" | "));
                 if r.is_err() { println!("ENUM-FAILED panic in the code under test"); }
@@ -34,6 +47,10 @@ fn main() {
                 std::process::exit(1);
             }
             if !nd::enum_advance() || runs >= max { break; }
+        }
+        if other_failures > 0 {
+            let (f, sc) = first_other.unwrap();
+            println!("ENUM-OTHER {other_failures} runs failed obligations of other properties only, e.g. {} with {}", f.join(" | "), sc.iter().map(|b| format!("{b:02x}")).collect::<Vec<_>>().join(","));
         }
         if valid_runs == 0 { println!("ENUM-VACUOUS {runs} runs, none satisfied the harness's assumptions"); std::process::exit(3); }
         println!("ENUM-OK {valid_runs} runs, no obligation failed");
